@@ -26,7 +26,14 @@ class ReadOut(torch.nn.Module):
             self.lin.weight.copy_(W.reshape(T, -1))
 
     def forward(self, X):
-        return self.lin(X.flatten(1))
+        y = self.lin(X.flatten(1))
+        poison = getattr(self, "poison", ())
+        if poison:
+            # outputs the caller masks OUT are not finite for some sequences (a log-count head at zero): they must not matter
+            y = y.clone()
+            for t in poison:
+                y[:, t] = torch.where(y[:, t] % 2 == 0, torch.full_like(y[:, t], float("inf")), y[:, t])
+        return y
 
 
 def run_problem(pr, variant):
@@ -40,6 +47,16 @@ def run_problem(pr, variant):
     kw = {}
     if not (len(pr["mask"]) == 2 and variant % 2):
         kw["mask"] = mask
+    if len(pr["mask"]) < 2 and variant % 3 == 0:
+        model.poison = tuple(t for t in range(2) if t not in pr["mask"])
+    if pr.get("loss") == "asym":
+        # loss(y, y_hat): squared error, three times as costly when the prediction overshoots the target
+        kw["loss"] = lambda y_, yh_: torch.where(yh_ > y_, 3.0, 1.0) * (y_ - yh_) ** 2
+    # the letters in another order by turns: symbol s is alphabet[s]
+    rot = (variant // 16 + variant) % 4          # varies WITHIN a worker process too (a worker gets every 16th case)
+    alphabet = [LETTERS[(k + rot) % 4] for k in range(4)]
+    kw["alphabet"] = alphabet
+    motifs = ["".join(alphabet[s] for s in m) for m in pr["motifs"]]
     out = dict()
     try:
         R = greedy_substitution(model, X, motifs, y, tol=pr["tol2"] / 2.0, max_iter=pr["maxit"],
@@ -48,8 +65,12 @@ def run_problem(pr, variant):
         dec = base.decode(R[0], allow_n=False) if R.ndim == 3 and R.shape[0] == 1 else "INVALID"
         out["x"] = dec
         if dec != "INVALID":
+            model.poison = ()
             yh = predict(model, R.float(), device="cpu")
-            out["sl"] = int(round(float(((y - yh)[:, mask] ** 2).sum())))
+            err = (y - yh) ** 2
+            if pr.get("loss") == "asym":
+                err = torch.where(yh > y, 3.0, 1.0) * err
+            out["sl"] = int(round(float(err[:, mask].sum())))
     except Exception as e:
         out["st"] = "err"; out["msg"] = "%s: %s" % (type(e).__name__, str(e)[:100])
     out["same"] = base.tdig(X) == d0
